@@ -67,13 +67,14 @@ func checkC04(c *Check) {
 			hit := edgesWhere(val, cBool(exValid), true)
 			okHit := len(hit) > 0
 			for e := range hit {
-				in, _ := Query{Fn: val}.Reach(e.B.Succs[e.S], 0, func(in ssa.Instruction) bool {
-					r, ok := in.(*ssa.Return)
-					return ok && strip(r.Results[0]) != ssa.Value(exact)
+				// on every path from the valid edge the result is the exact value (merges resolved along the path)
+				eachPathToReturn(val, e, func(path []*ssa.BasicBlock, r *ssa.Return) bool {
+					if resolveOnPath(path, r.Results[0]) != ssa.Value(exact) {
+						okHit = false
+						return false
+					}
+					return true
 				})
-				if in != nil {
-					okHit = false
-				}
 				// and nothing else happens: no scan, no parent
 				in2, _ := Query{Fn: val}.Reach(e.B.Succs[e.S], 0, func(in ssa.Instruction) bool {
 					return (rng != nil && in == ssa.Instruction(rng)) || (parentCall != nil && in == ssa.Instruction(parentCall))
@@ -131,15 +132,20 @@ func checkC04(c *Check) {
 						return rng == nil && strip(v) == ssa.Value(exact)
 					}
 					hasExact, hasScan := false, false
-					for _, e := range ph.Edges {
-						if strip(e) == ssa.Value(exact) {
+					other := false
+					phiLeaves(ph, func(e ssa.Value) {
+						switch {
+						case e == ssa.Value(exact):
 							hasExact = true
-						}
-						if next != nil && vExtract(2, vIs(next))(e) {
+						case next != nil && vExtract(2, vIs(next))(e):
 							hasScan = true
+						case isZeroStructValue(e):
+							// reflect.Value{}: "nothing found", as invalid as the exact miss it replaces
+						default:
+							other = true
 						}
-					}
-					return hasExact && (hasScan || rng == nil)
+					})
+					return hasExact && (hasScan || rng == nil) && !other
 				}
 				inval := edgesWhere(val, cBool(vCall("(reflect.Value).IsValid", merged)), false)
 				nonNil := edgesWhere(val, cCmp(token.NEQ, vField(recv, "parent"), vNil), true)
@@ -715,4 +721,32 @@ func checkFastInvoker(c *Check, fn *ssa.Function) {
 		}
 	})
 	c.Cond(okRes, key+":results", p.Pos(call.Pos()), "results returned as [ValueOf(r0), ValueOf(r1), …] in declaration order, nil error", "a fast invoker returns the function's results in the wrong order or drops them (the fast path differs from the reflective path)")
+}
+
+// isZeroStructValue: a composite literal T{} without any field store (read as a value).
+func isZeroStructValue(v ssa.Value) bool {
+	v = strip(v)
+	if c, ok := v.(*ssa.Const); ok {
+		return c.Value == nil
+	}
+	u, ok := v.(*ssa.UnOp)
+	if !ok || u.Op != token.MUL {
+		return false
+	}
+	al, ok := u.X.(*ssa.Alloc)
+	if !ok {
+		return false
+	}
+	for _, r := range referrers(al) {
+		switch x := r.(type) {
+		case *ssa.UnOp:
+		case *ssa.DebugRef:
+		case *ssa.Store:
+			_ = x
+			return false
+		default:
+			return false
+		}
+	}
+	return true
 }
